@@ -422,6 +422,13 @@ func (p *Parser) eat() lexer.Token {
 	return token
 }
 
+// skipNewlines eats blank (or comment-only) lines.
+func (p *Parser) skipNewlines() {
+	for p.peek().Type() == lexer.NEWLINE {
+		p.eat()
+	}
+}
+
 func (p *Parser) isShortVarInit() bool {
 	_, err := p.findAllowed(lexer.SHORT_INIT_OPERATOR, lexer.IDENTIFIER, lexer.COMMA)
 
@@ -654,6 +661,10 @@ func (p *Parser) evaluateImports(ctx context) ([]Statement, error) {
 		}
 
 		for {
+			// Blank lines are allowed between the imports of a group.
+			if multiple {
+				p.skipNewlines()
+			}
 			imp, err := p.evaluateImport()
 
 			if err != nil {
@@ -721,6 +732,9 @@ func (p *Parser) evaluateImports(ctx context) ([]Statement, error) {
 				}
 			}
 
+			if multiple {
+				p.skipNewlines()
+			}
 			nextToken = p.peek()
 			nextTokenType := nextToken.Type()
 
@@ -1649,6 +1663,7 @@ func (p *Parser) evaluateSwitch(ctx context) (Statement, error) {
 		},
 	}
 	useMock := true
+	p.skipNewlines() // Blank lines are allowed in front of the first case.
 	nextToken = p.peek()
 	defaultSet := false
 
